@@ -8,7 +8,7 @@ EXPLANATION = ("Static MIR rules on crate mla-bindings-c: (R20.1) in every exter
                "Box::from_raw is followed on all normal exits by Box::leak/into_raw of that box unless the caller's handle was nulled before (release "
                "functions); (R20.3) MLAStatus::Success is not reachable from the Err outcome of any fallible library call, results are not dropped; "
                "R20.1 also requires that with the non-null edges of a handle's tests cut no Success status is reachable (no early success above the null tests); R20.3 also requires that no `From<..> for MLAStatus` conversion yields Success and follows map_or_else error functions; "
-               "(R20.7) at every call of a dependency function that discards the io::Error of the writes it issues (brotli CompressorWriter::into_inner), inside a function returning a Result, the writer handed back is asked for the error it recorded on every path to Ok; "
+               "(R20.8) no field of the callback adapters is updated from the requested length without the count the callback reported; (R20.7) at every call of a dependency function that discards the io::Error of the writes it issues (brotli CompressorWriter::into_inner), inside a function returning a Result, the writer handed back is asked for the error it recorded on every path to Ok; "
                "(R20.4) the callback adapters return Ok only on callback status 0, with the count the callback reported; (R20.5) extraction registers "
                "only writers initialised by the file callback under its status-0 edge and goes through linear_extract; (R20.6) no BufWriter / LineWriter stands in front of a "
                "caller callback unless every path to Success passes its flush (whose result R20.3 examines). Byte equality with the Rust "
